@@ -95,8 +95,18 @@ func ruleReadOnly(p *Prog, c *Check, rule string) {
 	for _, root := range ro {
 		s := e.Summary(root)
 		bad := map[string]bool{}
+		// the io.Writer parameters of the root: the only non-fresh thing a read-only operation may write to
+		writerParam := map[int]bool{}
+		for i, prm := range root.Params {
+			if isWriterType(prm.Type()) {
+				writerParam[i] = true
+			}
+		}
 		for _, w := range s.Writes {
-			if w.Kind == EWriter || w.Target.Kind == PFresh {
+			if w.Target.Kind == PFresh {
+				continue
+			}
+			if w.Kind == EWriter && (w.Target.Kind == PParam || w.Target.Kind == PParamR) && w.Target.F == 0 && writerParam[w.Target.Idx] {
 				continue
 			}
 			key := fmt.Sprintf("%p", w.Ins)
